@@ -18,14 +18,9 @@
   reachable from the second one holds what it held, the second one reaches exactly
   the same cells, and the two are still disjoint.  Core Lean only.
 -/
+import Gotree.Model.C15Heap
+
 namespace Gotree.C15.Heap
-
-abbrev Addr := Nat
-
-structure H where
-  ptrs : Addr → List Addr
-  data : Addr → Nat
-  next : Addr
 
 inductive Reach (h : H) (r : Addr) : Addr → Prop
   | root : Reach h r r
@@ -72,10 +67,6 @@ theorem step_frame {r r' : Addr} {e : H → H} (hl : Local r e) (h : H)
 /-- a local edit keeps its own tree allocated (needed to chain edits) -/
 def KeepsAlloc (r : Addr) (e : H → H) : Prop := ∀ h, Alloc h r → Alloc (e h) r
 
-def run : List (H → H) → H → H
-  | [], h => h
-  | e :: es, h => run es (e h)
-
 /-- any history of local edits of `r` leaves the twin `r'` alone -/
 theorem history_frame {r r' : Addr} : ∀ (es : List (H → H)) (h : H),
     (∀ e ∈ es, Local r e ∧ KeepsAlloc r e) → Alloc h r → Alloc h r' → Disjoint h r r' →
@@ -97,16 +88,7 @@ theorem observe_frame {α : Type} {r r' : Addr} (obs : H → α)
     (ha : Alloc h r) (ha' : Alloc h r') (hd : Disjoint h r r') : obs (run es h) = obs h :=
   hobs h (run es h) (history_frame es h hes ha ha' hd).1
 
-
 /-! ### the notion is inhabited: two local edits -/
-
-/-- overwrite the data of the root cell (e.g. a rename, a new length) -/
-def setData (r : Addr) (v : Nat) (h : H) : H := { h with data := fun a => if a = r then v else h.data a }
-
-/-- allocate a cell and hang it on the root cell (e.g. `AddComment` growing its array, a new child) -/
-def allocChild (r : Addr) (h : H) : H :=
-  { ptrs := fun a => if a = r then h.next :: h.ptrs r else if a = h.next then [] else h.ptrs a,
-    data := h.data, next := h.next + 1 }
 
 theorem setData_reach (r : Addr) (v : Nat) (h : H) : ∀ a, Reach (setData r v h) r a → Reach h r a := by
   intro a ha
